@@ -160,6 +160,14 @@ class History:
     def stamp(self, p, t):
         os.utime(p, (t, t))
 
+    def cache_times_to_harness_clock(self):
+        """cache files just written carry real "now" stamps: give them the next tick of the harness clock"""
+        real = [p for p in (self.fai, self.agp) if p.exists() and p.stat().st_mtime > PAST + 10**8]
+        if real:
+            self.clock += 1
+            for p in real:
+                self.stamp(p, self.clock)
+
     def write_fasta(self, i, same_tick):
         self.content = self.pool[i % len(self.pool)]
         self.path.write_bytes(self.content)
@@ -199,6 +207,7 @@ class History:
             got = load(self.path)
         except Exception as e:  # noqa: BLE001  -- loud failure is allowed
             self.dirty = False
+            self.cache_times_to_harness_clock()
             return "raised " + type(e).__name__
         compare(got, want, "auto_load")
         for p in (self.fai, self.agp):
@@ -237,20 +246,82 @@ class History:
             got = result_of(fai)
         except Exception as e:  # noqa: BLE001
             self.dirty = False
+            self.cache_times_to_harness_clock()
             return "raised " + type(e).__name__
         finally:
             fa.close(fai)
+        self.cache_times_to_harness_clock()
         compare(got, want, "auto_load on an index object created before the last change")
         self.nontrivial_loads += 1
-        self.clock += 1
-        for p in (self.fai, self.agp):
-            if p.exists():
-                self.stamp(p, self.clock) if not valid_before else None
         self.dirty = False
         return "ok"
 
+    def future_fasta(self, i, j):
+        """
+        The FASTA carries a time stamp in the future (clock skew, `touch -d`): index it, then replace it with
+        other content half a second later; each load must describe the content of that moment.
+        """
+        base = time.time() + 40
+        for step, k in enumerate((i, j)):
+            self.content = self.pool[k % len(self.pool)]
+            self.path.write_bytes(self.content)
+            t_ns = int((base + 0.5 * step) * 1e9)
+            os.utime(self.path, ns=(t_ns, t_ns))
+            self.loads += 1
+            try:
+                got = load(self.path)
+            except Exception:  # noqa: BLE001
+                continue
+            compare(got, oracle_of(self.content), f"FASTA dated {40 + 0.5 * step:.1f} s in the future, load {step + 1}")
+        self.nontrivial_loads += 1
+        # back to the harness clock (the cache files carry real "now" stamps: age them below the FASTA)
+        self.clock += 2
+        self.stamp(self.path, self.clock)
+        for p in (self.fai, self.agp):
+            if p.exists():
+                self.stamp(p, self.clock - 1)
+        self.dirty = True
+
+    def keep_loaded(self):
+        """load through an object that is kept alive"""
+        fai = FastaIndex(self.path)
+        try:
+            fai.auto_load()
+        except Exception:  # noqa: BLE001
+            fa.close(fai)
+            self.cache_times_to_harness_clock()
+            return
+        self.cache_times_to_harness_clock()
+        compare(result_of(fai), oracle_of(self.content), "auto_load (object kept)")
+        self.dirty = False
+        self.loaded = fai
+
+    def load_again(self):
+        """auto_load() a second time on the kept object, after whatever happened since: loud failure, or the current content"""
+        fai = getattr(self, "loaded", None)
+        if fai is None:
+            return
+        self.loaded = None
+        self.loads += 1
+        try:
+            fai.auto_load()
+            got = result_of(fai)
+        except Exception:  # noqa: BLE001
+            return
+        finally:
+            fa.close(fai)
+            self.cache_times_to_harness_clock()
+        compare(got, oracle_of(self.content), "second auto_load() on an index object that had already loaded")
+        self.nontrivial_loads += 1
+
     def apply(self, op):
         k = op[0]
+        if k == "future":
+            return self.future_fasta(op[1], op[2])
+        if k == "keep_loaded":
+            return self.keep_loaded()
+        if k == "load_again":
+            return self.load_again()
         if k == "hold":
             return self.hold()
         if k == "load_held":
@@ -316,6 +387,18 @@ def run_histories(rec, tier, seed_value, shard, nshards, handle):
         @rule()
         def auto_load(self):
             self.do(["load"])
+
+        @rule(i=st.integers(0, 3), j=st.integers(0, 3))
+        def fasta_dated_in_the_future(self, i, j):
+            self.do(["future", i, j])
+
+        @rule()
+        def load_and_keep_object(self):
+            self.do(["keep_loaded"])
+
+        @rule()
+        def load_again_on_kept_object(self):
+            self.do(["load_again"])
 
         @rule()
         def create_index_object(self):
